@@ -3,7 +3,7 @@ import os
 import re
 
 from ..cfgq import bool_edges, cond_tree, explore, promoted_tree, stmt_loc
-from ..facts import AnchorError, Origins, callee_name, method_name, peel, strip_mods, TRANSPARENT
+from ..facts import AnchorError, Origins, callee_name, method_name, mname, peel, strip_mods, TRANSPARENT
 from ..fmtq import FmtError, pieces
 from . import escape_tables
 
@@ -382,10 +382,66 @@ def r4_6(ctx):
     ctx.check(n >= 3, "regex-sites", "-", "%d regex construction sites in src/rules analysed" % n, "only %d regex construction sites found in src/rules" % n)
 
 
+def r4_7(ctx):
+    """first regex clean-up pass: `\\c` keeps its backslash for every regex metacharacter c - including the backslash itself (`\\\\` is an escaped
+    backslash; dropping one lets the other fuse with the next character: `a\\\\b` would compile as `a\\b`, a word boundary)"""
+    prog = ctx.prog
+    f = prog.fn("cleanup_unrecognized_escape_sequences")
+    o = Origins(f)
+    sws = [(bi, b["term"]) for bi, b in enumerate(f.blocks) if not b["cleanup"] and b["term"]["k"] == "switch" and b["term"]["ty"] == "char"]
+    intro = [(bi, t) for bi, t in sws if [int(v) for v, _ in t["targets"]] == [92]]
+    if len(intro) != 1:
+        raise AnchorError("cleanup_unrecognized_escape_sequences: the `ch == '\\\\'` test was not found")
+    ib, it = intro[0]
+    ch = f.canon_place(it["discr"].get("copy") or it["discr"].get("move"))
+    bs_target = it["targets"][0][1]
+    # blocks that push the introducer again, after the following character was read
+    nexts = [bb for bb, t in f.calls() if mname(t) == "Iterator::next" and bb in f.reachable(bs_target, removed_edges=f.back_edges())]
+    keeps = []
+    for bb, t in f.calls():
+        if mname(t) == "String::push" and bb in f.reachable(bs_target, removed_edges=f.back_edges()):
+            pl = t["args"][1].get("copy") or t["args"][1].get("move")
+            if pl is not None and f.canon_place(pl) == ch:
+                keeps.append(bb)
+    kept = set()
+    sources = []
+    for bi, t in sws:
+        if bi == ib:
+            continue
+        for v, tg in t["targets"]:
+            if any(tg == k or (f.blocks[tg]["term"]["k"] == "goto" and f.succ(tg) == [k]) for k in keeps):
+                kept.add(chr(int(v)))
+        sources.append("match arms")
+    for bb, t in f.calls():
+        if mname(t) in ("str::contains", "slice::contains") and len(t["args"]) == 2:
+            hay = peel(o.operand(t["args"][0]))
+            lit = hay.a.as_str() if hay.kind == "const" else None
+            if lit is None and hay.kind == "const":
+                pt = promoted_tree(prog, f, hay.a)
+                if pt is not None:
+                    lit = "".join(k.a.as_char() or "" for k in pt.walk() if k.kind == "const" and k.a.as_char())
+            be = bool_edges(f, t["target"])
+            if lit is not None and be and any(k in f.reachable(be[0], removed_edges=f.back_edges()) for k in keeps):
+                kept |= set(lit)
+                sources.append("contains(%r)" % lit)
+    letters = any(mname(t) in ("char::is_ascii_alphabetic", "char::is_alphabetic", "char::is_ascii_alphanumeric") for _, t in f.calls()) or \
+        any(st["k"] == "assign" and st["rv"]["k"] == "bin" and st["rv"]["op"] in ("Le", "Ge", "Lt", "Gt") for b in f.blocks for st in b["stmts"])
+    need = set("[]{}()|?*+-.^$\\")
+    missing = sorted(need - kept)
+    ctx.check(bool(keeps), "cleanup:keep-site", f.where(), "the pass re-emits the backslash for recognised escapes (%d site(s))" % len(keeps),
+              "no site that keeps the backslash of a recognised escape")
+    ctx.check(not missing, "cleanup:metacharacters", f.where(),
+              "`\\c` keeps its backslash for every regex metacharacter incl. `\\` itself (%s)" % ", ".join(sorted(set(sources))),
+              "the backslash is dropped in front of %s: an escaped %s in a (regex) expectation changes its meaning (`a\\\\b` compiles as `a\\b`)" %
+              (missing, "backslash" if "\\" in missing else "metacharacter"))
+    ctx.check(letters, "cleanup:letters", f.where(), "letter escapes (`\\d`, `\\w`, `\\S` ..) keep their backslash", "no letter test in the clean-up pass")
+
+
 def run(ctx):
     ctx.run_rule("R4.1", "RegexRule::make anchors a *group* around the cleaned expression (`^(?:..)$`); the cram glob regex is anchored too [E-FLOW]", r4_1, floor=3)
     ctx.run_rule("R4.2", "per Rule impl the line reaches the whole-line comparator only through the documented transforms [E-FLOW]", r4_2, floor=8)
     ctx.run_rule("R4.3", "registry: first registered name == kind(); names == documented BNF; cram overrides exactly glob/gl [E-TABLE]", r4_3, floor=12)
     ctx.run_rule("R4.4", "glob_to_regex_string emits raw regex syntax only for `?`->`.`, `*`->`.*` and the escaped pairs; everything else via regex::escape [E-TABLE]", r4_4, floor=5)
     ctx.run_rule("R4.6", "every matcher in src/rules is built with the regex crate's default semantics (no unicode(false), case_insensitive, multi_line .. on a builder) [E-SITE]", r4_6, floor=3)
+    ctx.run_rule("R4.7", "regex clean-up pass 1: the backslash is kept in front of every regex metacharacter incl. the backslash, and in front of letters [E-TABLE]", r4_7, floor=3)
     ctx.run_rule("R4.5", "escape decoder tables (letter escapes, \\xHH radix 16 x2 digits, \\0OO radix 8, \\\\) [E-TABLE]", r4_5, floor=6)
